@@ -338,7 +338,8 @@ class Column:
         return p_list
 
     def process_type_to_column_data(self, p_list, p):
-        if "IDENTITY" in p_list[-1]["type"].upper():
+        # the IDENTITY keyword as a word of the type text, not a type name that contains these letters
+        if re.search(r"(^|\s)IDENTITY(\s|$)", p_list[-1]["type"].upper()):
             split_type = p_list[-1]["type"].split()
             del p_list[-1]
             if len(split_type) == 1:
